@@ -69,12 +69,24 @@ def variants(tpl, budget, max_active=3, rnd=None, limit=None):
                 rec(i + 1, left - k, active + 1, cur + [k])
 
     rec(0, budget, 0, [])
-    # maximal variants only: a variant dominated slot-wise by another adds nothing (a hole of k bytes of these classes
-    # does not contain the hole of k-1 bytes, so keep all sizes but drop those with spare budget that could grow)
-    if rnd is not None and limit is not None and len(res) > limit:
-        rnd.shuffle(res)
-        res = res[:limit]
-    return res
+    if limit is None or len(res) <= limit:
+        return res
+    # fixed core (independent of the seed): every slot alone at its largest size, and every pair of neighbouring slots;
+    # the rest of the quota is a seeded sample, so different VERIF_SEED values widen the coverage
+    core = []
+    for i, sl in enumerate(slots):
+        v = [0] * len(slots)
+        v[i] = min(sl[1], budget)
+        core.append(v)
+        if i + 1 < len(slots) and max_active >= 2:
+            w = list(v)
+            w[i] = min(sl[1], max(1, budget // 2))
+            w[i + 1] = min(slots[i + 1][1], budget - w[i])
+            if w[i + 1] > 0:
+                core.append(w)
+    rest = [r for r in res if r not in core]
+    (rnd or random).shuffle(rest)
+    return core + rest[:max(0, limit - len(core))]
 
 
 # ---------------------------------------------------------------- structured templates (delimiters '<' '>')
@@ -108,6 +120,17 @@ STRUCT = {
     'unwrap-inline-untouched': [H(2), O('m', RX + ' unwrap-block'), H(2, 'txt'), "{b}", H(1, 'txt'), C('m'), H(2)],
     'unwrap-one-line-between': ["A\n", H(1, 'ind'), O('m', RX + ' unwrap-block'), "\n", H(2, 'txt'), "x\n", H(1, 'ind'), C('m'), "\nB", H(2)],
     'unwrap-in-unwrap': ["A\n", O('m', RX + ' unwrap-block'), "\n{\n", H(1, 'ind'), O('t', RT + ' unwrap-block'), "\n", H(1, 'ind'), "[\n", H(2, 'ind'), "k;\n", H(1, 'ind'), "]\n", H(1, 'ind'), C('t'), "\n}\n", C('m'), "\nB\n"],
+    # children sitting on the wrapper lines of an unwrap-block (C02/C03/C14 quantify over all sources)
+    'child-opens-on-head-wrapper': ["A\n", O('m', RX + ' unwrap-block'), "\nif (f) {", H(1, 'sp'), O('t', RT), "\n", H(1, 'txt'), "q;\n", C('t'), "\n", H(2, 'ind'), "k;\n}\n", C('m'), "\nB", H(1)],
+    'child-opens-on-tag-line': ["A\n", O('m', RX + ' unwrap-block'), H(1, 'sp'), O('t', RT), "\n{\nq;\n", C('t'), "\n", H(2, 'ind'), "k;\n", H(1, 'txt'), "j;\n}\n", C('m'), "\nB", H(1)],
+    'child-closes-on-tail-wrapper': ["A\n", O('m', RX + ' unwrap-block'), "\n{\n", H(2, 'ind'), "k;\n", O('t', RT), "\nq;\n}", H(1, 'sp'), C('t'), "\n", C('m'), "\nT1", H(1, 'nb'), "\nT2\n"],
+    'child-closes-on-tail-wrapper-eof': ["A\n", O('m', RX + ' unwrap-block'), "\n{\n", H(2, 'ind'), "k;\n", O('t', RT), "\nq;\n}", H(1, 'sp'), C('t'), "\n", C('m'), H(2, 'nb')],
+    'child-on-tail-then-later-removal': ["A\n", O('m', RX + ' unwrap-block'), "\n{\n  k;\n} ", O('t', RT), "c", C('t'), "\n", C('m'), "\nf() {\n", H(2, 'ind'), "  one();\n", H(2, 'ind'), "    two();\n}\n",
+                                         O('t', RT), "\nz\n", C('t'), "\nB\n"],
+    'inline-child-in-head-wrapper': ["A\n", O('t', RT + ' unwrap-block'), "\nif ", O('m', RX), "c", C('m'), " {\n", H(2, 'ws'), "k\n}\n", C('t'), H(2, 'ws'), "B"],
+    'unwrap-ragged': ["A\n", H(1, 'ind'), O('m', RX + ' unwrap-block'), "\n{\n    ", H(1, 'nb'), "a;\n  ", H(2, 'nb'), "b;\n", H(2, 'nb'), "c;\n", H(1, 'ind'), H(1, 'nb'), "d;\n}\n", C('m'), "\nB\n"],
+    'unwrap-empty-line-between': [H(1), "A\n", O('m', RX + ' unwrap-block'), H(1, 'ind'), "\n", H(2, 'ind'), "\n", H(1, 'ind'), C('m'), "\nB", H(1)],
+    'unwrap-adjacent-lines': [H(1), "A ", O('m', RX + ' unwrap-block'), H(1, 'ind'), "\n", H(1, 'ind'), C('m'), " B", H(1)],
 }
 
 # junk documents for C04: with an empty target set and a current time before every `to`, nothing can be ready
@@ -222,9 +245,9 @@ def pipe_clean(ctx, p):
 def struct_jobs(prop, tier, seed, names=None, budget=None, max_active=None, limit_per_tpl=None):
     rnd = random.Random(seed * 1000003 + 7)
     jobs = []
-    budget = budget or (4 if tier == 'quick' else 6)
-    max_active = max_active or (2 if tier == 'quick' else 3)
-    limit = limit_per_tpl or (6 if tier == 'quick' else 60)
+    budget = budget or (4 if tier == 'quick' else 7)
+    max_active = max_active or (2 if tier == 'quick' else 4)
+    limit = limit_per_tpl or (4 if tier == 'quick' else 80)
     for name, tpl in STRUCT.items():
         if names and name not in names:
             continue
@@ -374,7 +397,7 @@ def c11_jobs(tier, seed):
     rnd = random.Random(seed + 5)
     jobs = []
     kmax = 4 if tier == 'quick' else 6
-    hole_sets = [dict(tag_i=2, ctag_i=1, b0_i=2), dict(b0_t=2, b1_t=1), dict(pre_t=2, post_i=2), dict(b1_i=2, b2_i=2, b0_i=1)]
+    hole_sets = [dict(tag_i=2, ctag_i=1, b0_i=2), dict(b0_t=2, b1_t=1), dict(pre_t=2, post_i=2), dict(b1_i=2, b2_i=2, b0_i=1), dict(b1_i=2, b2_t=1), dict(tag_i=1, b1_i=3, b2_i=1, b3_t=1)]
     if tier != 'quick':
         hole_sets += [dict(tag_i=2, b0_i=2, b1_i=2, b2_i=2), dict(tag_i=1, ctag_i=2, b1_t=2, b2_i=2), dict(pre_i=2, tag_i=2, ctag_i=2, post_i=2),
                       dict(b0_i=3, b1_i=3, b2_t=2)]
@@ -548,6 +571,7 @@ def c06_jobs(tier, seed):
             if q in w:
                 continue
             J(f'keyword-in-value {w!r} quote={q}', mode='keyword-in-value', word=w, quote=q, pre=1 if tier == 'quick' else 2, post=1)
+            J(f'keyword-is-value {w!r} quote={q}', mode='keyword-in-value', word=w, quote=q, pre=0, post=0)
     for n in (1, 2) + ((3,) if tier != 'quick' else ()):
         J(f'tagname |name|={n}', mode='tagname', n=n)
     return jobs
